@@ -88,6 +88,12 @@ let rec filter f = function
 | [] -> []
 | x :: l0 -> if f x then x :: (filter f l0) else filter f l0
 
+(** val find : ('a1 -> bool) -> 'a1 list -> 'a1 option **)
+
+let rec find f = function
+| [] -> None
+| x :: tl -> if f x then Some x else find f tl
+
 (** val combine : 'a1 list -> 'a2 list -> ('a1 * 'a2) list **)
 
 let rec combine l l' =
